@@ -20,12 +20,12 @@ RULE = ("random nestings (depth up to 8) of `with action`, `with action.context(
         "forest so that children/new tasks/context-less messages are attributed as executed. non-trivial = an exceptional exit at "
         "depth >=2 (previous action not None); distinct by program shape")
 ASSUMPTIONS = ["generator-held blocks are closed only when the driver's context is what it was at the yield (properly nested use)"]
-BATCH = 10
+BATCH = 50
 STYLES = ["with", "with", "ctx_finish", "ctx_finish", "run_finish", "run_finish", "gen_with", "gen_context", "start_task", "log_call", "ActionType", "as_task"]
 
 
 def plan(tier, seed):
-    n = 4000 if tier == "quick" else 100000
+    n = 12000 if tier == "quick" else 120000
     return [{"seed": seed, "lo": i, "hi": min(n, i + BATCH), "tier": tier} for i in range(0, n, BATCH)]
 
 
